@@ -276,7 +276,7 @@ func main() {
 			a := []string{"-test.run", "^" + j.leg.Test + "$", "-test.timeout", fmt.Sprintf("%ds", j.tc.TimeoutS+30), "-test.count=1"}
 			switch j.leg.Kind {
 			case "rapid":
-				a = append(a, "-rapid.checks", strconv.Itoa(j.tc.Checks/j.tc.Shards), "-rapid.seed", strconv.FormatInt(seed*1000+int64(j.shard), 10), "-rapid.nofailfile", "-rapid.shrinktime", "20s")
+				a = append(a, "-rapid.checks", strconv.Itoa(j.tc.Checks/j.tc.Shards), "-rapid.seed", strconv.FormatUint(rapidSeed(seed, j.shard), 10), "-rapid.nofailfile", "-rapid.shrinktime", "20s")
 			case "fuzz":
 				a = []string{"-test.run", "^$", "-test.fuzz", "^" + j.leg.Test + "$", "-test.fuzztime", fmt.Sprintf("%ds", j.tc.FuzzS), "-test.fuzzcachedir", filepath.Join(verifDir, ".build", "fuzzcache", id), "-test.timeout", fmt.Sprintf("%ds", j.tc.TimeoutS+30)}
 			}
@@ -498,6 +498,13 @@ func main() {
 		os.Exit(2)
 	}
 	os.Exit(0)
+}
+
+// rapidSeed spaces the shards' seed ranges far apart: rapid advances its seed by the iteration
+// number per case (seed, seed+1, seed+3, seed+6, ...), so adjacent start values would make
+// shards re-run each other's cases. n(n+1)/2 stays below 2^36 for 370k cases per shard.
+func rapidSeed(seed int64, shard int) uint64 {
+	return uint64(seed)<<44 + uint64(shard)<<36 + 1
 }
 
 func fnv64(s string) uint64 {
